@@ -58,8 +58,8 @@ type RunConfig struct {
 	Legacy24  bool `json:"legacy24,omitempty"`
 	// Avoid: constraints tied to recorded known findings (see known_findings.json)
 	Avoid []string `json:"avoid,omitempty"`
-	World     *World `json:"world"`
-	Ops       []Op   `json:"ops"`
+	World *World   `json:"world"`
+	Ops   []Op     `json:"ops"`
 }
 
 // Run is the live state of one execution.
@@ -75,34 +75,34 @@ type Run struct {
 	prefix string
 	hmu    sync.Mutex
 
-	step       int
-	faultsLeft int
-	faultsOff  bool
+	step        int
+	faultsLeft  int
+	faultsOff   bool
 	firedFaults []string
 
-	Trace      []string
-	traceOn    bool
-	violations []*Violation
-	probes     map[string]int
+	Trace        []string
+	traceOn      bool
+	violations   []*Violation
+	probes       map[string]int
 	loadProblems []string
-	dns        map[string][]string
-	dnsFail    map[string]bool
+	dns          map[string][]string
+	dnsFail      map[string]bool
 
 	oracleSeq int
 	simStart  time.Time
 	// per-reconcile observations
-	reconciles     int
-	or             OracleSet
-	cur            recOutcome
-	reloadPending  bool
-	startupReloads int
-	startupCmds    int
-	lastFaultAt    time.Time
-	nfHashes       map[string]bool
-	capLoaded      *HAConfig
-	startupDone    bool
+	reconciles          int
+	or                  OracleSet
+	cur                 recOutcome
+	reloadPending       bool
+	startupReloads      int
+	startupCmds         int
+	lastFaultAt         time.Time
+	nfHashes            map[string]bool
+	capLoaded           *HAConfig
+	startupDone         bool
 	reloadPendingBefore bool
-	sig            []string
+	sig                 []string
 }
 
 func (r *Run) trace(format string, a ...any) {
